@@ -131,6 +131,9 @@ const (
 
 	// tokenEnd represents a period.
 	tokenEnd
+
+	// tokenError holds the place of a token that the lexer failed to read, e.g. at the end of input.
+	tokenError
 )
 
 // GoString returns a string representation of tokenKind.
@@ -160,6 +163,7 @@ func (k tokenKind) String() string {
 		tokenBar:              "bar",
 		tokenComma:            "comma",
 		tokenEnd:              "end",
+		tokenError:            "error",
 	}[k]
 }
 
